@@ -294,9 +294,11 @@ theorem k_decodeAnsiX12Segment_eq (fuel : Nat) (bs : List Nat) (hb : ∀ b ∈ b
     rw [this]
     simp
 
+when_kernel Gzx.Gen.K02e.decodeAnsiX12Segment in
 /-- non-vacuity: "1A " + unlatch, and a value ≥ 40 -/
 example : Gen.K02e.decodeAnsiX12Segment 10 (bytesI [0x21, 0x74, 254, 7]) 0 0 [9] = .ok ([9, 49, 65, 32], false, 3, 0, [9, 49, 65, 32]) := by
   decide
+when_kernel Gzx.Gen.K02e.decodeAnsiX12Segment in
 example : Gen.K02e.decodeAnsiX12Segment 10 (bytesI [255, 255]) 0 0 [9] = .ok ([9], true, 2, 0, [9]) := by decide
 
 end Gzx.Obligations.K02e
